@@ -22,7 +22,10 @@ RULE = (
     "a file database; a third of the drawn cases additionally place the "
     "spans on a minute grid, run the three cleaning steps with time_buffer "
     "in {1,2,3} and demand one representative per shape among the traces "
-    "still stored after cleaning. Non-trivial: >=2 traces of equal form under one name "
+    "still stored after cleaning; a quarter arrive in two deliveries for the "
+    "same trace ids (sub trees held back, selection after each delivery "
+    "against one sqlite file); one fixed large store (1005 traces, root "
+    "page of 1000). Non-trivial: >=2 traces of equal form under one name "
     "and >=2 forms overall. Distinct by the serialised case.")
 ASSUMPTIONS = [
     "canonical form = (type, sorted tuple of child forms)",
@@ -122,9 +125,98 @@ def check_case(case, batches=(1, 2, 3, 1000), full=True):
                 store.dispose(h)
     if case.get("via_otel_to_pv"):
         via_otel_to_pv(case, spans)
+    if case.get("late") is not None:
+        two_deliveries(case, spans)
     if case.get("window"):
         return windowed(case)
     return None
+
+
+def two_deliveries(case, spans):
+    """A first delivery without some sub trees (every held back span is held
+    back together with all its descendants, so the stored trees are pruned,
+    not broken), selection; then the rest arrives for the *same* trace ids,
+    selection again against the same sqlite file.  Each selection must be
+    right for what is stored at that moment inside the time window of the
+    delivery (the window is taken from the spans the holder instance
+    ingested itself; older traces outside it are not candidates - observed
+    behaviour of get_time_window, not demanded otherwise)."""
+    held = set()
+    by_id = {s[0]: s for s in spans}
+    kids = {}
+    for s in spans:
+        kids.setdefault(s[1], []).append(s[0])
+    rng_pick = case["late"]
+    cands = [s[0] for s in spans if s[1] is not None]
+    if not cands:
+        return
+    for i in rng_pick:
+        stack = [cands[i % len(cands)]]
+        while stack:
+            x = stack.pop()
+            if x not in held:
+                held.add(x)
+                stack.extend(kids.get(x, []))
+    first = [s for s in spans if s[0] not in held]
+    late = [s for s in spans if s[0] in held]
+
+    def forms_of(sp):
+        ch = {}
+        for s in sp:
+            ch.setdefault(s[1], []).append(s)
+        def form(s):
+            return (s[2], tuple(sorted(form(c) for c in ch.get(s[0], []))))
+        out = {}
+        for s in sp:
+            if s[1] is None:
+                out.setdefault(s[4], {})[s[3]] = form(s)
+        return out
+
+    with store.TempDB() as db:
+        stored = []
+        for part, label in ((first, "first delivery"),
+                            (late, "after the late spans")):
+            stored += part
+            h = store.new_holder(batch_size=case.get("pv_batch", 2),
+                                 db_uri=db.uri)
+            try:
+                store.ingest(h, [store.otel_event(*s) for s in part])
+                try:
+                    res = h.find_unique_graphs()
+                except Exception as e:
+                    raise Violation(f"two deliveries, {label}: "
+                                    f"find_unique_graphs raised "
+                                    f"{type(e).__name__}: {e}")
+            finally:
+                store.dispose(h)
+            # candidate roots are taken from the time window of what THIS
+            # holder instance ingested (base.py get_time_window, buffer 0):
+            # stored traces with a span start or end inside it
+            lo = min(x[5] for x in part)
+            hi = max(x[6] for x in part)
+            inside = {x[3] for x in stored
+                      if lo <= x[5] <= hi or lo <= x[6] <= hi}
+            want = {n: {j: f for j, f in d.items() if j in inside}
+                    for n, d in forms_of(stored).items()}
+            want = {n: d for n, d in want.items() if d}
+            if set(res) != set(want):
+                raise Violation(f"two deliveries, {label}: workflows "
+                                f"{sorted(res)} vs stored {sorted(want)}")
+            for name, ids in res.items():
+                fs = [want[name].get(j) for j in ids]
+                if None in fs:
+                    raise Violation(f"two deliveries, {label}: unknown trace "
+                                    f"selected under {name}: {sorted(ids)}")
+                if len(set(fs)) != len(fs):
+                    raise Violation(
+                        f"two deliveries, {label}: workflow {name}: two "
+                        f"traces of one shape selected: {sorted(ids)}")
+                if set(fs) != set(want[name].values()):
+                    raise Violation(
+                        f"two deliveries, {label}: workflow {name}: "
+                        f"{len(set(fs))} shapes represented by {sorted(ids)} "
+                        f"but {len(set(want[name].values()))} distinct shapes "
+                        f"are stored")
 
 
 MIN = 60 * 10**9
@@ -264,6 +356,8 @@ def classify(case):
         classes.append("via_otel_to_pv")
     if case.get("window"):
         classes.append("buffered_window")
+    if case.get("late") is not None:
+        classes.append("two_deliveries_same_trace_ids")
     return rep and nforms >= 2, classes
 
 
@@ -341,6 +435,10 @@ def case_strategy():
         if draw(st.integers(0, 4)) == 0:
             case["via_otel_to_pv"] = True
             case["pv_batch"] = draw(st.sampled_from([1, 2, 3, 1000]))
+        if draw(st.integers(0, 3)) == 0:
+            case["late"] = draw(st.lists(st.integers(0, 40), min_size=1,
+                                         max_size=3))
+            case.setdefault("pv_batch", draw(st.sampled_from([1, 2, 1000])))
         if draw(st.integers(0, 2)) == 0:
             # traces inside / outside / straddling a buffered window
             times = []
@@ -409,6 +507,17 @@ def run_shard(ctx):
                        else (1, 2, 3, 1000))
         except Violation as v:
             ctx.violation(case, str(v))
+            return
+    if ctx.shard == 3 % ctx.nshards:
+        # one large store: more than 999 traces in one root page
+        big = {"traces": [["wf", ["A", [["B" if i % 2 else "C", []]]]]
+                          for i in range(1005)]}
+        ctx.record({"traces": "1005 two-span traces, two shapes"}, True,
+                   ["large_root_page_over_999"])
+        try:
+            check_case(big, batches=(1000,))
+        except Violation as v:
+            ctx.violation(big, "[large store] " + str(v))
             return
     ctx.run_given(case_strategy(), fn, 40 if ctx.tier == "quick" else 1500,
                   shrinker=shrinker)
